@@ -241,6 +241,9 @@ class MEDDLY::terminal {
                         float f;
                     } x;
                     x.f = t_real;
+                    // the lsb of the fraction is dropped; if nothing else
+                    // is set (smallest denormals), the value rounds to zero
+                    if (0 == (x.h & ~(msb() | 1))) return 0;
                     // strip the lsb in fraction, and add sign bit
                     return (x.h>>1) | msb();
                 } else {
@@ -250,6 +253,7 @@ class MEDDLY::terminal {
                         double d;
                     } x;
                     x.d = t_real;
+                    if (0 == (x.h & ~(msb() | 1))) return 0;
                     // strip the lsb in fraction, and add sign bit
                     return (x.h>>1) | msb();
                 }
